@@ -83,6 +83,12 @@ func validateJSONPointer(msg *json.RawMessage, name string) error {
 		return fmt.Errorf("%s: invalid %s", patch.JSONPatch, name)
 	}
 
+	// a non-empty JSON pointer starts with '/' (RFC 6901); the JSON patch library ignores anything before the
+	// first '/', so "x/service" would address the service section
+	if pointer != "" && !strings.HasPrefix(pointer, "/") {
+		return fmt.Errorf("%s: invalid %s: JSON pointer must start with '/'", patch.JSONPatch, name)
+	}
+
 	if strings.HasPrefix(pointer, "/"+document.ServiceProperty) {
 		return fmt.Errorf("%s: cannot modify services", patch.JSONPatch)
 	}
